@@ -72,12 +72,6 @@ theorem attempt_perm (cfg : Cfg) (P : Prog) (roots : List Nat) (active active' :
   | none => rfl
   | some env => simp only [attemptOutcome, check_perm env active active' h]
 
-/-- weight of an activation vector: `Π_{i active} p_i · Π_{i inactive} (1 - p_i)` -/
-def softWeight : List Rat → List Bool → Rat
-  | p :: ps, b :: bs => (if b then p else 1 - p) * softWeight ps bs
-  | [], [] => 1
-  | _, _ => 0
-
 theorem actWeight_eq_softWeight {c : Cfg} (h : c.WF) : ∀ (ps : List Rat) (bs : List Bool),
     actWeight c ps bs = softWeight ps bs := by
   intro ps
